@@ -168,7 +168,11 @@ def make_spec(r, dt, pat, n=None, order=None, only=None):
                     v = {'$setup': d_, 'route': route}
                 fat[kw] = v
                 sup.append(kw)
-    sp['ops'].append(gen.frame_op('FR', [1, 2], **fat))
+    order_ = [1, 2]
+    if fat.get('index_type') is None and r.random() < 0.6:
+        order_ = [2, 1]      # no index type: the first channel is an ARRAY channel (2-D data); the bounds are row numbers
+        sp['array_channel_first'] = True
+    sp['ops'].append(gen.frame_op('FR', order_, **fat))
     sp['write'] = {'output_chunk_size': 2 ** 16, 'input_chunk_size': r.choice([None, 1, 2])}
     if n > 1 and r.random() < 0.35:
         a0 = r.randrange(0, n)
